@@ -308,6 +308,42 @@ class ConfigRun:
         self.kinds.add("valid-update")
         ctx.nontrivial = True
 
+    def op_lazy_first(self, op):
+        """the same change (valid or offending) as the VERY FIRST access to a LazyCryptContext nobody has used yet (built from
+        keywords or from an onload callback) and to an ordinary context of the same configuration: same answer, same state after"""
+        ctx = self.ctx
+        base = list((op.get("delta") or {}).items())
+        if op["kind"] != "valid":
+            bad = self.invalid_item(op["kind"], op["cat"])
+            bads = [bad] if bad else self.invalid_pairs(op["kind"])
+            if not bads:
+                return
+            base = base + bads
+        change = dict(base)
+        if not change:
+            return
+        how = op["how"]
+        if how == "update" and any(not k.replace("_", "a").isidentifier() for k in change):
+            how = "load_update"
+        kw = dict(self.cur)
+        if op.get("onload"):
+            lazy = self.pc.LazyCryptContext(onload=lambda **k: dict(kw))
+        else:
+            lazy = self.pc.LazyCryptContext(**kw)
+        twin = self.pc.CryptContext(**kw)
+        ctx.fault("change_is_first_use_of_lazy_context")
+        self.attempt()
+        want = self.apply(twin, change, how)
+        got = self.apply(lazy, change, how)
+        ctx.check(got[0] == want[0] and (got[0] == "ok" or got[1] == want[1]), "C10", "lazy-context-answers-differently",
+                  lambda: f"{how}({ {k: getattr(v, 'name', v) if not isinstance(v, list) else [getattr(x, 'name', x) for x in v] for k, v in change.items()} }) "
+                          f"as first access to a LazyCryptContext({'onload' if op.get('onload') else 'keywords'}) -> {got[:2]}; an ordinary context -> {want[:2]}",
+                  kind=op["kind"])
+        a, b = self.cheap(lazy), self.cheap(twin)
+        self.same(b, a, f"after {how}(...) [{want[0]}] as first access: lazy context vs ordinary context", failed=want[0] == "exc", fault="lazy-first", kind=op["kind"])
+        self.kinds.add("lazy-first:" + ("valid" if op["kind"] == "valid" else "invalid"))
+        ctx.nontrivial = True
+
     def op_failed_using(self, op):
         """k-th customisation call raises, for every k and five exception types"""
         ctx = self.ctx
